@@ -16,6 +16,8 @@ from fractions import Fraction
 
 import numpy as np
 
+from pwlib.share import shcopy
+
 from pwlib import gens
 from pwlib.canon import counted, counted_ints, dtype_tag, flat, ints
 from pwlib.engine import Case
@@ -385,8 +387,8 @@ def make_tri_group(spec):
     from polliwog.tri import (barycentric_coordinates_of_points, surface_area, surface_normals,
                               tri_contains_coplanar_point)
     stream = spec["stream"]
-    T = np.array(spec["tris"], dtype=np.float64).reshape(-1, 3, 3)
-    P = np.array(spec["pts"], dtype=np.float64).reshape(-1, 3)
+    T = np.array(np.reshape(spec["tris"], (-1, 3, 3)), dtype=np.float64)
+    P = np.array(np.reshape(spec["pts"], (-1, 3)), dtype=np.float64)
     kinds = spec["kinds"]
     k = len(T)
     single = spec["single"] and k == 1
@@ -400,7 +402,7 @@ def make_tri_group(spec):
         cases.append(Case(spec, line, impl, mode=mode, klass=name + "/" + kl + ("/" + sub if sub else ""),
                           trivial=trivial if triv is None else triv, scale=scale, **kw))
 
-    targ = (lambda A: A[0].copy()) if single else (lambda A: A.copy())
+    targ = (lambda A: shcopy(A[0])) if single else (lambda A: shcopy(A))
     # raw normals and area: every triangle (degenerate ones included)
     add("normals-raw", Line("tri.normals").b(False).vecs(T),
         lambda: counted(np.asarray(surface_normals(targ(T), normalize=False)).reshape(-1, 3)), "both", size2,
@@ -412,7 +414,7 @@ def make_tri_group(spec):
     TG = T[gi].reshape(-1, 3, 3)
     PG = P[gi].reshape(-1, 3)
     gsingle = single and len(gi) == 1
-    garg = (lambda A: A[0].copy()) if gsingle else (lambda A: A.copy())
+    garg = (lambda A: shcopy(A[0])) if gsingle else (lambda A: shcopy(A))
     add("normals-unit", Line("tri.normals").b(True).vecs(TG),
         lambda: counted(np.asarray(surface_normals(garg(TG), normalize=True)).reshape(-1, 3)), "both", 1.0, triv=len(gi) == 0)
     # barycentric coordinates: well-shaped triangles, and exactly degenerate ones (the guard branch)
@@ -423,7 +425,7 @@ def make_tri_group(spec):
     for t, p, s in zip(TB, PB, [sizes[i] for i in bi]):
         bscale = max(bscale, (gens.maxabs(p - t[0]) / s) if s > 0 else 1.0)
     add("bary", Line("tri.bary").vecs(TB).vecs(PB),
-        lambda: counted(barycentric_coordinates_of_points(TB.copy(), PB.copy())), "both", bscale * 10,
+        lambda: counted(barycentric_coordinates_of_points(shcopy(TB), shcopy(PB))), "both", bscale * 10,
         sub="guard" if any(kinds[i] == "deg" for i in bi) else None, triv=len(bi) == 0)
     # containment and same-side: exact on the lattice; float stream only where every weight is away from 0
     if stream == "lattice":
@@ -437,7 +439,7 @@ def make_tri_group(spec):
     TC = T[ci].reshape(-1, 3, 3)
     PC = P[ci].reshape(-1, 3)
     csingle = single and len(ci) == 1
-    carg = (lambda A: A[0].copy()) if csingle else (lambda A: A.copy())
+    carg = (lambda A: shcopy(A[0])) if csingle else (lambda A: shcopy(A))
     A_, B_, C_ = TC[:, 0], TC[:, 1], TC[:, 2]
     if not (single and not csingle):
         add("contains", Line("tri.contains").vecs(A_).vecs(B_).vecs(C_).vecs(PC),
@@ -532,7 +534,7 @@ def sample_determined(weights, draws, n, exact_arith):
 
 def make_sample(spec):
     from polliwog.tri import sample, surface_area
-    T = np.array(spec["tris"], dtype=np.float64).reshape(-1, 3, 3)
+    T = np.array(np.reshape(spec["tris"], (-1, 3, 3)), dtype=np.float64)
     k = len(T)
     n = spec["n"]
     weights = spec["weights"]
@@ -546,7 +548,7 @@ def make_sample(spec):
 
     def impl():
         rng, _ = build_rng(spec["rng"])
-        return canon_sample(sample(T.copy(), n, rng=rng, weights=None if W is None else W.copy(), ret_face_indices=True))
+        return canon_sample(sample(shcopy(T), n, rng=rng, weights=None if W is None else shcopy(W), ret_face_indices=True))
 
     def line(hasw, w):
         return Line("tri.sample").b(True).i(n).b(True).b(hasw).vecs(np.asarray(w, dtype=np.float64)).vecs(T).vecs(np.asarray(draws, dtype=np.float64))
@@ -555,7 +557,7 @@ def make_sample(spec):
     if W is None:
         # model computes the areas itself (sqrt): Float run only; exact run gets the areas the code computes
         cases.append(Case(spec, line(False, []), impl, mode="float", klass="sample/" + kl, trivial=trivial, scale=scale))
-        areas = np.atleast_1d(surface_area(T.copy())) if k > 0 else np.zeros(0)
+        areas = np.atleast_1d(surface_area(shcopy(T))) if k > 0 else np.zeros(0)
         if sample_determined(list(areas), draws, n, False):
             cases.append(Case(spec, line(True, areas), impl, mode="rat", klass="sample-exact/" + kl, trivial=trivial, scale=scale))
     else:
@@ -569,11 +571,11 @@ def make_sample(spec):
 
 def make_edges(spec):
     from polliwog.tri import edges_of_faces
-    faces = np.array(spec["faces"], dtype=np.int64).reshape(-1, 3)
+    faces = np.array(np.reshape(spec["faces"], (-1, 3)), dtype=np.int64)
     nz = spec["normalize"]
 
     def impl():
-        e = edges_of_faces(faces.copy(), normalize=nz)
+        e = edges_of_faces(shcopy(faces), normalize=nz)
         return [dtype_tag(e)] + [int(e.shape[0])] + ints(e)
     c = Case(spec, Line("tri.edges").b(True).b(nz).i(len(faces)).i(*faces.ravel()), impl, mode="rat",
              klass="edges/%s/%s" % ("sorted" if nz else "raw", "k0" if len(faces) == 0 else "k"), trivial=len(faces) == 0)
@@ -587,7 +589,7 @@ def make_quads(spec):
     rm = spec["ret_mapping"]
 
     def impl():
-        r = quads_to_tris(quads.copy(), ret_mapping=rm)
+        r = quads_to_tris(shcopy(quads), ret_mapping=rm)
         if rm:
             t, m = r
             return [dtype_tag(t)] + [int(t.shape[0])] + ints(t) + [dtype_tag(m)] + [int(m.shape[0])] + ints(m)
@@ -600,7 +602,7 @@ def make_quads(spec):
 
 def make_malformed(spec):
     from polliwog.tri import barycentric_coordinates_of_points, edges_of_faces, sample
-    T = np.array(spec["tris"], dtype=np.float64).reshape(-1, 3, 3)
+    T = np.array(np.reshape(spec["tris"], (-1, 3, 3)), dtype=np.float64)
     k = len(T)
     n = spec["n"]
     what = spec["what"]
@@ -610,27 +612,27 @@ def make_malformed(spec):
         return Line("tri.sample").b(isint).i(nn).b(rngok).b(hasw).vecs(np.asarray(w, dtype=np.float64)).vecs(tris).vecs(np.asarray(dr, dtype=np.float64))
 
     if what == "n-float":
-        line, impl = sline(False, n, True, False, []), lambda: canon_sample(sample(T.copy(), float(n), ret_face_indices=True))
+        line, impl = sline(False, n, True, False, []), lambda: canon_sample(sample(shcopy(T), float(n), ret_face_indices=True))
     elif what == "n-npint":   # np.int64 is not an `int`
-        line, impl = sline(False, n, True, False, []), lambda: canon_sample(sample(T.copy(), np.int64(n), ret_face_indices=True))
+        line, impl = sline(False, n, True, False, []), lambda: canon_sample(sample(shcopy(T), np.int64(n), ret_face_indices=True))
     elif what == "n-neg":
-        line, impl = sline(True, -n, True, False, [], dr=[]), lambda: canon_sample(sample(T.copy(), -n, ret_face_indices=True))
+        line, impl = sline(True, -n, True, False, [], dr=[]), lambda: canon_sample(sample(shcopy(T), -n, ret_face_indices=True))
     elif what == "n-neg-k0":  # no triangles: the empty result is returned before the generator is asked for -n values
         E = np.zeros((0, 3, 3))
-        line, impl = sline(True, -n, True, False, [], tris=E, dr=[]), lambda: canon_sample(sample(E.copy(), -n, ret_face_indices=True))
+        line, impl = sline(True, -n, True, False, [], tris=E, dr=[]), lambda: canon_sample(sample(shcopy(E), -n, ret_face_indices=True))
     elif what == "rng-int":
-        line, impl = sline(True, n, False, False, []), lambda: canon_sample(sample(T.copy(), n, rng=1337, ret_face_indices=True))
+        line, impl = sline(True, n, False, False, []), lambda: canon_sample(sample(shcopy(T), n, rng=1337, ret_face_indices=True))
     elif what == "rng-randomstate":
-        line, impl = sline(True, n, False, False, []), lambda: canon_sample(sample(T.copy(), n, rng=np.random.RandomState(3), ret_face_indices=True))
+        line, impl = sline(True, n, False, False, []), lambda: canon_sample(sample(shcopy(T), n, rng=np.random.RandomState(3), ret_face_indices=True))
     elif what == "weights-len":
         w = np.ones(k + spec["extra"])
-        line, impl = sline(True, n, True, True, w), lambda: canon_sample(sample(T.copy(), n, weights=w.copy(), ret_face_indices=True))
+        line, impl = sline(True, n, True, True, w), lambda: canon_sample(sample(shcopy(T), n, weights=shcopy(w), ret_face_indices=True))
     elif what == "weights-2d":   # (k,1) is not (k,): modelled as a wrong count (k+1 entries on the model side)
         w = np.ones((k, 1))
-        line, impl = sline(True, n, True, True, np.ones(k + 1)), lambda: canon_sample(sample(T.copy(), n, weights=w.copy(), ret_face_indices=True))
+        line, impl = sline(True, n, True, True, np.ones(k + 1)), lambda: canon_sample(sample(shcopy(T), n, weights=shcopy(w), ret_face_indices=True))
     elif what == "bary-count":
         P = np.zeros((k + spec["extra"], 3))
-        line, impl = Line("tri.bary").vecs(T).vecs(P), lambda: counted(barycentric_coordinates_of_points(T.copy(), P.copy()))
+        line, impl = Line("tri.bary").vecs(T).vecs(P), lambda: counted(barycentric_coordinates_of_points(shcopy(T), shcopy(P)))
     elif what in ("edges-int32", "edges-float"):
         faces = np.arange(3 * k, dtype=np.int32 if what == "edges-int32" else np.float64).reshape(-1, 3)
         line = Line("tri.edges").b(False).b(True).i(k).i(*range(3 * k))
@@ -654,12 +656,12 @@ def oracle_tri_group(spec, T, P, kinds, single, gi, bi, ci, sizes):
     out = []
     k = len(T)
     if k == 0:
-        if np.asarray(surface_normals(T.copy())).shape != (0, 3) or np.asarray(surface_area(T.copy())).shape != (0,):
+        if np.asarray(surface_normals(shcopy(T))).shape != (0, 3) or np.asarray(surface_area(shcopy(T))).shape != (0,):
             out.append(("stack/empty", "empty stack does not give an empty result"))
         return out
     lattice = spec["stream"] == "lattice"
-    raw = np.asarray(surface_normals(T.copy(), normalize=False)).reshape(-1, 3)
-    area = np.atleast_1d(surface_area(T.copy()))
+    raw = np.asarray(surface_normals(shcopy(T), normalize=False)).reshape(-1, 3)
+    area = np.atleast_1d(surface_area(shcopy(T)))
     tv = np.array(spec["tvec"], dtype=np.float64)
     for i in range(k):
         t = T[i]
@@ -667,8 +669,8 @@ def oracle_tri_group(spec, T, P, kinds, single, gi, bi, ci, sizes):
         tol = F(1, 10 ** 9) * s2
         n = exact_normal(t)
         nn = vdot(n, n)
-        r1 = np.asarray(surface_normals(t.copy(), normalize=False))
-        a1 = float(surface_area(t.copy()))
+        r1 = np.asarray(surface_normals(shcopy(t), normalize=False))
+        a1 = float(surface_area(shcopy(t)))
         if any(not close(raw[i][j], n[j], tol) for j in range(3)):
             out.append(("normals/cross", "surface_normals(%s, normalize=False) = %s, cross product of the edges = %s" % (t.tolist(), raw[i].tolist(), [float(x) for x in n])))
         if r1.shape != (3,) or any(not close(r1[j], raw[i][j], tol) for j in range(3)) or not close(a1, area[i], tol):
@@ -682,9 +684,9 @@ def oracle_tri_group(spec, T, P, kinds, single, gi, bi, ci, sizes):
         sw = t[[1, 0, 2]]
         tr = t + tv * (1.0 if lattice else sizes[i])
         ttol = tol if lattice else F(1, 10 ** 9) * s2 + F(8 * 2.3e-16) * F(sizes[i]) * F(max(gens.maxabs(t), gens.maxabs(tr)))
-        nc = np.asarray(surface_normals(cyc.copy(), normalize=False))
-        ns = np.asarray(surface_normals(sw.copy(), normalize=False))
-        nt = np.asarray(surface_normals(tr.copy(), normalize=False))
+        nc = np.asarray(surface_normals(shcopy(cyc), normalize=False))
+        ns = np.asarray(surface_normals(shcopy(sw), normalize=False))
+        nt = np.asarray(surface_normals(shcopy(tr), normalize=False))
         if any(not close(nc[j], raw[i][j], 2 * tol) for j in range(3)):
             out.append(("normals/cyclic", "normal changes under cyclic relabelling of %s" % (t.tolist(),)))
         if any(not close(ns[j], -fr(raw[i][j]), 2 * tol) for j in range(3)):
@@ -695,12 +697,12 @@ def oracle_tri_group(spec, T, P, kinds, single, gi, bi, ci, sizes):
         for nm, tt, tl in (("cyclic", cyc, atol), ("swap", sw, atol), ("translate", tr, atol + (ttol - tol) * 4)):
             if kinds[i] == "thin" and nm == "translate":
                 continue
-            if not close(float(surface_area(tt.copy())), area[i], tl):
+            if not close(float(surface_area(shcopy(tt))), area[i], tl):
                 out.append(("area/" + nm, "area changes under %s of %s" % (nm, t.tolist())))
     # unit normals
     if gi:
         TG = T[gi]
-        un = np.asarray(surface_normals(TG.copy(), normalize=True)).reshape(-1, 3)
+        un = np.asarray(surface_normals(shcopy(TG), normalize=True)).reshape(-1, 3)
         for i, t in zip(range(len(gi)), TG):
             n = exact_normal(t)
             nn = vdot(n, n)
@@ -710,16 +712,16 @@ def oracle_tri_group(spec, T, P, kinds, single, gi, bi, ci, sizes):
             c = vcross(u, n)
             if vdot(c, c) > (F(1, 10 ** 8)) ** 2 * nn or vdot(u, n) <= 0:
                 out.append(("normals/direction", "normalized normal of %s is not a positive multiple of the cross product" % (t.tolist(),)))
-            u1 = np.asarray(surface_normals(t.copy()))
+            u1 = np.asarray(surface_normals(shcopy(t)))
             if u1.shape != (3,) or any(not close(u1[j], un[i][j], F(1, 10 ** 9)) for j in range(3)):
                 out.append(("stack-is-map", "row %d of the stacked unit normals differs from the single call" % i))
-            us = np.asarray(surface_normals(t[[0, 2, 1]].copy()))
+            us = np.asarray(surface_normals(shcopy(t[[0, 2, 1]])))
             if any(not close(us[j], -fr(un[i][j]), F(1, 10 ** 8)) for j in range(3)):
                 out.append(("normals/swap", "unit normal is not negated by a swap of %s" % (t.tolist(),)))
     # barycentric weights
     if bi:
         TB, PB = T[bi], P[bi]
-        bb = barycentric_coordinates_of_points(TB.copy(), PB.copy())
+        bb = barycentric_coordinates_of_points(shcopy(TB), shcopy(PB))
         if bb.shape != (len(bi), 3):
             out.append(("bary/shape", "barycentric result has shape %s" % (bb.shape,)))
         else:
@@ -743,14 +745,14 @@ def oracle_tri_group(spec, T, P, kinds, single, gi, bi, ci, sizes):
     if ci:
         TC, PC = T[ci], P[ci]
         A_, B_, C_ = TC[:, 0].copy(), TC[:, 1].copy(), TC[:, 2].copy()
-        cont = np.atleast_1d(tri_contains_coplanar_point(A_, B_, C_, PC.copy()))
-        e1 = np.atleast_1d(coplanar_points_are_on_same_side_of_line(B_, C_, PC.copy(), A_))
-        e2 = np.atleast_1d(coplanar_points_are_on_same_side_of_line(A_, C_, PC.copy(), B_))
-        e3 = np.atleast_1d(coplanar_points_are_on_same_side_of_line(A_, B_, PC.copy(), C_))
+        cont = np.atleast_1d(tri_contains_coplanar_point(A_, B_, C_, shcopy(PC)))
+        e1 = np.atleast_1d(coplanar_points_are_on_same_side_of_line(B_, C_, shcopy(PC), A_))
+        e2 = np.atleast_1d(coplanar_points_are_on_same_side_of_line(A_, C_, shcopy(PC), B_))
+        e3 = np.atleast_1d(coplanar_points_are_on_same_side_of_line(A_, B_, shcopy(PC), C_))
         for i, (t, p) in enumerate(zip(TC, PC)):
             if bool(cont[i]) != (bool(e1[i]) and bool(e2[i]) and bool(e3[i])):
                 out.append(("contains/edge-tests", "tri_contains_coplanar_point differs from the conjunction of the three same-side tests at %s / %s" % (t.tolist(), p.tolist())))
-            c1 = bool(tri_contains_coplanar_point(t[0].copy(), t[1].copy(), t[2].copy(), p.copy()))
+            c1 = bool(tri_contains_coplanar_point(shcopy(t[0]), shcopy(t[1]), shcopy(t[2]), shcopy(p)))
             if c1 != bool(cont[i]):
                 out.append(("stack-is-map", "stacked containment row %d differs from the single call" % i))
             b = exact_bary(t, p)
@@ -782,7 +784,7 @@ def oracle_sample(spec, T, W, n, draws):
 
     def call(rfi=True):
         rng, _ = build_rng(spec["rng"])
-        return sample(T.copy(), n, rng=rng, weights=None if W is None else W.copy(), ret_face_indices=rfi)
+        return sample(shcopy(T), n, rng=rng, weights=None if W is None else shcopy(W), ret_face_indices=rfi)
 
     nn = [vdot(x, x) for x in (exact_normal(t) for t in T)]
     if W is None:
@@ -851,7 +853,7 @@ def oracle_sample(spec, T, W, n, draws):
 def oracle_edges(faces, nz):
     from polliwog.tri import edges_of_faces
     out = []
-    e = edges_of_faces(faces.copy(), normalize=nz)
+    e = edges_of_faces(shcopy(faces), normalize=nz)
     if e.shape != (3 * len(faces), 2):
         return [("edges/count", "%d faces give an edge array of shape %s" % (len(faces), e.shape))]
     for i, f in enumerate(faces):
@@ -870,8 +872,8 @@ def oracle_edges(faces, nz):
 def oracle_quads(quads):
     from polliwog.tri import quads_to_tris
     out = []
-    t, m = quads_to_tris(quads.copy(), ret_mapping=True)
-    t2 = quads_to_tris(quads.copy())
+    t, m = quads_to_tris(shcopy(quads), ret_mapping=True)
+    t2 = quads_to_tris(shcopy(quads))
     k = len(quads)
     if t.shape != (2 * k, 3) or m.shape != (k, 2) or not np.array_equal(t, t2):
         return [("quads/count", "%d quads give triangles %s, mapping %s" % (k, t.shape, m.shape))]
